@@ -726,15 +726,24 @@ fn main() {
             }
         };
         if rel == "src/portable.rs" {
+            let packet_file = std::fs::read_to_string(format!("{}/src/internal.rs", repo)).ok().and_then(|t| syn::parse_file(&t).ok());
+            let sub = packet_file.as_ref().map(|pf| rustlite::SubObj::new("buffer", pf, "HashPacket"));
             let v = rustlite::translate(
                 &file,
                 &rel,
                 "PortableHash",
                 &["new", "zipper_merge_and_add", "update", "permute", "permute_and_update", "module_reduction", "rotate_32_by",
-                  "update_lanes", "data_to_lanes", "remainder", "update_remainder", "finalize64", "finalize128", "finalize256"],
-                &["buffer.len", "buffer.as_slice"],
+                  "update_lanes", "data_to_lanes", "remainder", "update_remainder", "finalize64", "finalize128", "finalize256", "append", "checkpoint", "from_checkpoint"],
+                &[],
+                &[("PACKET_SIZE", 32)],
+                "src",
+                sub,
             );
             write_if_changed(&format!("{}/SrcPortable.v", out_dir), &v);
+        }
+        if rel == "src/internal.rs" {
+            let v = rustlite::translate(&file, &rel, "HashPacket", &["len", "is_empty", "as_slice", "inner", "fill", "set_to"], &[], &[], "pkt", None);
+            write_if_changed(&format!("{}/SrcPacket.v", out_dir), &v);
         }
         let mut ff = FileFacts::default();
         for a in &file.attrs {
